@@ -194,3 +194,47 @@ Proof.
   intros k s Hs. apply vi_iter_itT; exact Hs.
 Qed.
 Print Assumptions C01_mirror_returns_iterates.
+
+(* ---------------- proper MDPs, ANY discount factor gamma <= 1 (in particular gamma = 1) ----------------
+   "Every policy reaches an absorbing state with probability 1" is expressed, as in C04_proper_optimum_unique /
+   C03_proper_optimum_unique, by step-count weights for ALL policies: w >= 0 and
+   1 + gamma * sum_ns Pm(s,a,ns) * w ns <= w s for every state and every available action; per case the boolean
+   c_proper (theory/LAOStarProper.v) is evaluated in exact rationals on weights W the harness computes
+   (1 + the largest expected number of steps over all policies).  Then the optimum is unique, and the reported
+   values are within epsb * W(s) of it: C01_values with 1/(1-gamma) replaced by the weight.  Vz reads the
+   placeholder of never-terminating (masked) states as 0; elsewhere it is the reported value itself.
+   (Not proved: that every MDP whose policies all terminate with probability 1 admits such weights.) *)
+From MSDM Require Import model.LAOStar theory.LAOStarProper theory.VIProper.
+
+Theorem C01_proper_optimum_unique :
+  forall nS nA P Rw av ab ini g W,
+  @c_proper Q NumQ (mk_mdp nS nA P Rw av ab ini g) (masktab (mk_mdp nS nA P Rw av ab ini g)) W = true ->
+  wfb (mR nS nA P Rw av ab ini g) = true ->
+  forall V1 V2, fixpoint (mR nS nA P Rw av ab ini g) V1 -> fixpoint (mR nS nA P Rw av ab ini g) V2 ->
+  forall s, (s < nS)%nat -> V1 s = V2 s.
+Proof.
+  intros nS nA P Rw av ab ini g W HW Hwf V1 V2.
+  exact (main_proper_unique nS nA P Rw av ab ini g W HW V1 V2 Hwf).
+Qed.
+Print Assumptions C01_proper_optimum_unique.
+
+Theorem C01_proper_values :
+  forall nS nA P Rw av ab ini g V Qv Pi iv tl W,
+  @c_proper Q NumQ (mk_mdp nS nA P Rw av ab ini g) (masktab (mk_mdp nS nA P Rw av ab ini g)) W = true ->
+  @c01_check Q NumQ (mk_mdp nS nA P Rw av ab ini g) (mk_out V Qv Pi iv) tl = all_true ->
+  forall Vs, 0 <= Q2R (epsb tl) -> fixpoint (mR nS nA P Rw av ab ini g) Vs ->
+  forall s, (s < nS)%nat ->
+    Rabs (Vz (mR nS nA P Rw av ab ini g) (oR V Qv Pi iv) s - Vs s) <= Q2R (epsb tl) * WR W s /\
+    (unable_to_reach (mR nS nA P Rw av ab ini g) s = false ->
+       Rabs (oV (oR V Qv Pi iv) s - Vs s) <= Q2R (epsb tl) * WR W s).
+Proof. exact main_proper_values. Qed.
+Print Assumptions C01_proper_values.
+
+(* non-vacuity at gamma = 1: 3-state proper MDP, V* = (-2,-2,0), weights (3,2,1); both hypotheses hold and the
+   bound is a statement about a real optimum *)
+Theorem C01_proper_nonvacuous :
+  @c_proper Q NumQ (mk_mdp 3 2 pxP pxR pxAv pxAb pxIni 1%Q) (masktab (mk_mdp 3 2 pxP pxR pxAv pxAb pxIni 1%Q)) pxW = true /\
+  @c01_check Q NumQ (mk_mdp 3 2 pxP pxR pxAv pxAb pxIni 1%Q) (mk_out pxVs pxQ pxPi (-2)%Q) exT = all_true /\
+  fixpoint (mR 3 2 pxP pxR pxAv pxAb pxIni 1%Q) (untab (map Q2R pxVs)).
+Proof. exact (conj px_proper (conj px_check px_fix)). Qed.
+Print Assumptions C01_proper_nonvacuous.
